@@ -1244,6 +1244,199 @@ Proof.
   exists (Some (0, p256_sqrt_b)), None. apply conj; [discriminate|]. repeat apply conj; vm_compute; reflexivity.
 Qed.
 
+(* ---- BLS12-381 G1 (ZCash flags) ---------------------------------------------------------------- *)
+
+Lemma le_enc_snoc k n : le_enc (S k) n = le_enc k n ++ [(n / 256 ^ Z.of_nat k) mod 256].
+Proof.
+  revert n; induction k as [|k IH]; intros n.
+  - cbn [le_enc app]. change (256 ^ Z.of_nat 0) with 1. now rewrite Z.div_1_r.
+  - change (le_enc (S (S k)) n) with ((n mod 256) :: le_enc (S k) (n / 256)).
+    rewrite IH. cbn [le_enc app]. rewrite Z.div_div by (try apply pow256_pos; lia).
+    rewrite <- pow256_S. reflexivity.
+Qed.
+
+Lemma be_enc_cons k n : be_enc (S k) n = ((n / 256 ^ Z.of_nat k) mod 256) :: be_enc k n.
+Proof. unfold be_enc. rewrite le_enc_snoc, rev_app_distr. reflexivity. Qed.
+
+Lemma be_val_cons a l : be_val (a :: l) = be_val l + 256 ^ Z.of_nat (length l) * a.
+Proof.
+  unfold be_val. cbn [rev]. rewrite le_val_app, rev_length. cbn [le_val]. ring.
+Qed.
+
+Lemma be_val_be_enc_mod k n : be_val (be_enc k n) = n mod 256 ^ Z.of_nat k.
+Proof. unfold be_val, be_enc. rewrite rev_involutive. apply le_val_le_enc_mod. Qed.
+
+Lemma is_neg_flip p y : p mod 2 = 1 -> 0 < y < p -> is_neg p (negm p y) = negb (is_neg p y).
+Proof.
+  intros Hodd Hy. unfold is_neg. rewrite negm_invol by lia. rewrite (negm_nz p y) by lia.
+  assert (p - y <> y).
+  { intros E. assert (p = y * 2) by lia. subst p. rewrite Z_mod_mult in Hodd. discriminate. }
+  destruct (y <? p - y) eqn:A, (p - y <? y) eqn:B; try reflexivity;
+    [apply Z.ltb_lt in A; apply Z.ltb_lt in B|apply Z.ltb_ge in A; apply Z.ltb_ge in B]; lia.
+Qed.
+
+Lemma fix_sign p s y : p mod 2 = 1 -> 0 <= y < p -> s = y \/ s = negm p y ->
+  (if xorb (is_neg p s) (is_neg p y) then negm p s else s) = y.
+Proof.
+  intros Hodd Hy [-> | ->].
+  - now rewrite xorb_nilpotent.
+  - destruct (Z.eq_dec y 0) as [->|Hy0].
+    + rewrite negm_0. now rewrite xorb_nilpotent.
+    + rewrite is_neg_flip by lia. destruct (is_neg p y); cbn [negb xorb]; apply negm_invol; lia.
+Qed.
+
+Lemma le_enc_mult k a : le_enc k (a * 256 ^ Z.of_nat k) = zeros k.
+Proof.
+  revert a; induction k as [|k IH]; intros a; [reflexivity|].
+  cbn [le_enc zeros repeat]. rewrite pow256_S.
+  replace (a * (256 * 256 ^ Z.of_nat k)) with (a * 256 ^ Z.of_nat k * 256) by ring.
+  rewrite Z_mod_mult, Z.div_mul by lia. f_equal. apply IH.
+Qed.
+
+Lemma all_zero_zeros k : all_zero (zeros k) = true.
+Proof. unfold all_zero, zeros. induction k; [reflexivity|]. cbn [repeat forallb Z.eqb andb]. assumption. Qed.
+
+Section BlsRoundTrip.
+  Variable c : wcodec.
+  Hypothesis OK : wcodec_ok c.
+  Hypothesis Hlen1 : (1 <= wc_len c)%nat.
+  (* the modulus leaves the three flag bits free *)
+  Hypothesis Hflags : 8 * wc_p c <= 256 ^ Z.of_nat (wc_len c).
+  Let p := wc_p c.
+  Let Hp2 : 2 <= p := prime_ge_2 _ (ok_prime c OK).
+  Let Hodd : p mod 2 = 1 :=
+    ts_p_odd2 p (wc_e c) (wc_rou c) (ok_e c OK) (ok_m c OK) (ok_g c OK) (ok_rou c OK).
+
+  Lemma w_sqrt_complete x y :
+    w_on_curve (wc c) (Some (x, y)) = true -> 0 <= y < p ->
+    exists s, wc_sqrt c (wc_rhs c x) = Some s /\ (s = y \/ s = negm p y).
+  Proof.
+    intros Hc Hy. rewrite (on_curve_rhs c x y Hc). fold p.
+    destruct (ts_sqrt_complete p (wc_e c) (wc_rou c) (ok_prime c OK) (ok_e c OK) (ok_m c OK) (ok_g c OK) (ok_rou c OK) y Hy)
+      as [s Hs].
+    exists s. unfold wc_sqrt. fold p. split; [exact Hs|].
+    assert (Hp0 : 0 < p) by lia.
+    pose proof (ts_sqrt_range p _ _ _ _ Hp0 Hs) as Hr. apply ts_sqrt_sound in Hs.
+    apply prime_sq_eq; try assumption; [exact (ok_prime c OK)|].
+    unfold eqm. unfold mulm in Hs. rewrite Hs. apply Zmod_mod.
+  Qed.
+
+  Theorem blsg1_roundtrip_c P :
+    w_on_curve (wc c) P = true -> w_canon c P -> w_in_subgroup c P ->
+    blsg1_dec_c c (blsg1_enc_c c P) = Some P.
+  Proof.
+    intros Hc Hr Hs.
+    assert (Ek : exists k, wc_len c = S k) by (exists (wc_len c - 1)%nat; lia).
+    destruct Ek as [k Ek].
+    set (N := 256 ^ Z.of_nat k).
+    assert (HN : 0 < N) by apply pow256_pos.
+    assert (Hhi : 2 ^ (8 * Z.of_nat (wc_len c) - 1) = 128 * N).
+    { rewrite Ek, Nat2Z.inj_succ. replace (8 * Z.succ (Z.of_nat k) - 1) with (7 + 8 * Z.of_nat k) by lia.
+      rewrite Z.pow_add_r, Z.pow_mul_r by lia. reflexivity. }
+    assert (HpN : p <= 32 * N).
+    { fold p in Hflags. rewrite Ek, pow256_S in Hflags. fold N in Hflags. lia. }
+    unfold blsg1_enc_c, blsg1_dec_c. cbv zeta. rewrite Hhi.
+    replace (128 * N / 2) with (64 * N) by (replace (128 * N) with (64 * N * 2) by ring; now rewrite Z.div_mul).
+    replace (128 * N / 4) with (32 * N) by (replace (128 * N) with (32 * N * 4) by ring; now rewrite Z.div_mul).
+    destruct P as [[x y]|].
+    - cbn [w_canon] in Hr. destruct Hr as [Hx Hy]. fold p in Hx, Hy.
+      set (f := if is_neg (wc_p c) y then 32 * N else 0).
+      rewrite be_enc_length, Nat.eqb_refl. cbn [negb]. rewrite Ek, be_enc_cons. fold N.
+      set (fb := if is_neg (wc_p c) y then 1 else 0).
+      assert (Hf : f = fb * 32 * N) by (unfold f, fb; destruct (is_neg _ _); ring).
+      assert (Hfb : fb = 0 \/ fb = 1) by (unfold fb; destruct (is_neg _ _); auto).
+      assert (Hdiv : (x + 128 * N + f) / N = x / N + (128 + 32 * fb)).
+      { rewrite Hf. replace (x + 128 * N + fb * 32 * N) with (x + (128 + 32 * fb) * N) by ring.
+        now rewrite Z.div_add by lia. }
+      assert (Hxt : 0 <= x / N < 32).
+      { split; [apply Z.div_pos; lia|apply Z.div_lt_upper_bound; lia]. }
+      set (t := x / N) in *.
+      assert (Htop : ((x + 128 * N + f) / N) mod 256 = 128 + 32 * fb + t).
+      { rewrite Hdiv. rewrite Z.mod_small by lia. ring. }
+      rewrite Htop.
+      assert (FC : flagC (128 + 32 * fb + t) = 1).
+      { unfold flagC. replace (128 + 32 * fb + t) with ((32 * fb + t) + 1 * 128) by ring.
+        rewrite Z.div_add, Z.div_small by lia. reflexivity. }
+      assert (FI : flagI (128 + 32 * fb + t) = 0).
+      { unfold flagI. replace (128 + 32 * fb + t) with ((32 * fb + t) + 2 * 64) by ring.
+        rewrite Z.div_add, Z.div_small by lia. reflexivity. }
+      assert (FS : flagS (128 + 32 * fb + t) = fb).
+      { unfold flagS. replace (128 + 32 * fb + t) with (t + (4 + fb) * 32) by ring.
+        rewrite Z.div_add, Z.div_small by lia. destruct Hfb as [-> | ->]; reflexivity. }
+      assert (FM : (128 + 32 * fb + t) mod 32 = t).
+      { replace (128 + 32 * fb + t) with (t + (4 + fb) * 32) by ring.
+        rewrite Z_mod_plus_full. apply Z.mod_small. lia. }
+      rewrite FC, FI, FS, FM. cbn [Z.eqb Pos.eqb negb].
+      rewrite be_val_cons, be_enc_length, be_val_be_enc_mod. fold N.
+      assert (Hxv : (x + 128 * N + f) mod N + N * t = x).
+      { rewrite Hf. replace (x + 128 * N + fb * 32 * N) with (x + (128 + 32 * fb) * N) by ring.
+        rewrite Z_mod_plus_full. unfold t. pose proof (Z.div_mod x N ltac:(lia)). lia. }
+      rewrite Hxv. fold p. rewrite (Z.mod_small x p) by lia.
+      destruct (w_sqrt_complete x y Hc Hy) as [s [Es Ss]]. rewrite Es.
+      assert (Sg : (fb =? 1) = is_neg p y).
+      { unfold fb. fold p. destruct (is_neg p y); reflexivity. }
+      rewrite Sg, (fix_sign p s y Hodd Hy Ss).
+      apply w_torsion_free_spec in Hs. rewrite Hs. reflexivity.
+    - rewrite be_enc_length, Nat.eqb_refl. cbn [negb]. rewrite Ek, be_enc_cons. fold N.
+      replace (128 * N + 64 * N) with (0 + 192 * N) by ring.
+      rewrite Z.div_add, Z.div_0_l by lia. cbn [Z.add]. change (192 mod 256) with 192.
+      change (flagC 192) with 1. change (flagI 192) with 1. change (flagS 192) with 0.
+      cbn [Z.eqb Pos.eqb negb]. change (192 mod 32) with 0. cbn [Z.eqb andb].
+      assert (AZ : all_zero (be_enc k (192 * N)) = true).
+      { unfold N, be_enc. rewrite le_enc_mult, rev_zeros. apply all_zero_zeros. }
+      rewrite AZ. reflexivity.
+  Qed.
+
+  Theorem blsg1_roundtrip_u P :
+    w_on_curve (wc c) P = true -> w_canon c P -> w_in_subgroup c P ->
+    blsg1_dec_u c (blsg1_enc_u c P) = Some P.
+  Proof.
+    intros Hc Hr Hs.
+    assert (Ek : exists k, wc_len c = S k) by (exists (wc_len c - 1)%nat; lia).
+    destruct Ek as [k Ek].
+    set (N := 256 ^ Z.of_nat k).
+    assert (HN : 0 < N) by apply pow256_pos.
+    assert (HpN : p <= 32 * N).
+    { fold p in Hflags. rewrite Ek, pow256_S in Hflags. fold N in Hflags. lia. }
+    unfold blsg1_enc_u, blsg1_dec_u. destruct P as [[x y]|].
+    - cbn [w_canon] in Hr. destruct Hr as [Hx Hy]. fold p in Hx, Hy.
+      rewrite app_length, !be_enc_length.
+      replace (wc_len c + wc_len c)%nat with (2 * wc_len c)%nat by lia.
+      rewrite Nat.eqb_refl. cbn [negb]. rewrite Ek at 1. rewrite be_enc_cons. fold N. cbn [app].
+      assert (Hxt : 0 <= x / N < 32).
+      { split; [apply Z.div_pos; lia|apply Z.div_lt_upper_bound; lia]. }
+      set (t := x / N) in *.
+      rewrite (Z.mod_small t 256) by lia.
+      assert (FI : flagI t = 0) by (unfold flagI; rewrite Z.div_small by lia; reflexivity).
+      rewrite FI. cbn [Z.eqb]. cbv zeta.
+      rewrite (Z.mod_small t 32) by lia.
+      replace (wc_len c - 1)%nat with k by lia.
+      rewrite firstn_app_len, skipn_app_len by apply be_enc_length.
+      rewrite be_val_cons, be_enc_length, be_val_be_enc_mod. fold N.
+      assert (Hxv : x mod N + N * t = x) by (unfold t; pose proof (Z.div_mod x N ltac:(lia)); lia).
+      rewrite Hxv. pose proof (ok_len c OK) as Hl. fold p in Hl.
+      rewrite be_val_be_enc by lia. fold p. rewrite !Z.mod_small by lia.
+      unfold w_set_affine. fold p. rewrite (on_curve_rhs c x y Hc). fold p. rewrite Z.eqb_refl.
+      apply w_torsion_free_spec in Hs. rewrite Hs. reflexivity.
+    - cbn [length]. rewrite zeros_length. replace (S (2 * wc_len c - 1)) with (2 * wc_len c)%nat by lia.
+      rewrite Nat.eqb_refl. reflexivity.
+  Qed.
+End BlsRoundTrip.
+
+Lemma blsg1_flag_room : 8 * wc_p blsg1_codec <= 256 ^ Z.of_nat (wc_len blsg1_codec).
+Proof. vm_compute. discriminate. Qed.
+
+Theorem blsg1_roundtrip_instance P : prime bls12381_p ->
+  w_on_curve (wc blsg1_codec) P = true -> w_canon blsg1_codec P -> w_in_subgroup blsg1_codec P ->
+  blsg1_dec_c blsg1_codec (blsg1_enc_c blsg1_codec P) = Some P /\
+  blsg1_dec_u blsg1_codec (blsg1_enc_u blsg1_codec P) = Some P.
+Proof.
+  intros Hp Hc Hr Hs. pose proof (blsg1_codec_ok Hp) as OK.
+  assert (L : (1 <= wc_len blsg1_codec)%nat) by (vm_compute; repeat constructor).
+  split; [apply blsg1_roundtrip_c|apply blsg1_roundtrip_u]; auto using blsg1_flag_room.
+Qed.
+
+
 (* ---- non-vacuity: a toy curve over F_11 meets every hypothesis ---------------------------------- *)
 
 Lemma prime_11 : prime 11.
